@@ -15,6 +15,8 @@ type Instance struct {
 	Root     func() // scenario script run under the scheduler (E1)
 	MaxSteps int
 	NoCache  bool
+	// PruneFrom is the smallest deviation bound explored with fingerprint pruning (default 0: always pruned).
+	PruneFrom int
 	// Seq runs a sequential enumeration (E2/E3) instead of a scheduled scenario.
 	Seq func(r *vp.InstResult)
 }
